@@ -11,7 +11,7 @@ import numpy as np
 import vlib
 
 PROP_V = 'properties/C10.v'
-OP_TRACE, OP_PROG, OP_STEPS, OP_ORDER, OP_HALF = 130, 131, 140, 141, 142
+OP_TRACE, OP_PROG, OP_STEPS, OP_ORDER, OP_HALF, OP_PROG12 = 130, 131, 140, 141, 142, 132
 
 
 def q(x):
@@ -41,13 +41,13 @@ def trace_cases(ctx, st, n_cases, jobs, src, seeds=None):
         sd = seeds[rep] if seeds is not None else ctx.rng.randrange(2 ** 31)
         rng = random.Random(sd)
         fam, sym, ops, N, H, n, cplx = problem(rng, Nmax=6)
-        method = rng.choice(['1site', '2site'])
+        method = rng.choice(['1site', '2site', '12site'])
         pre = rng.random() < 0.5
         try:
-            psi = dgen.random_state(rng, ops, N, D_total=rng.randint(2, 8), n=n, cplx=True)
+            psi = dgen.random_state(rng, ops, N, D_total=rng.randint(1, 8), n=n, cplx=True)
         except Exception:
             continue
-        nsteps = rng.randint(1, 2)
+        nsteps = rng.randint(1, 2) if method != '12site' else 1
         Hs = H if rng.random() < 0.7 else [H, -0.5 * dgen.hamiltonian(rng, fam, ops, N, cplx=cplx)[0]]
         desc = dict(kind='tdvp-trace', family=fam, sym=sym, N=N, method=method, precompute=pre, steps=nsteps, case_seed=sd)
         ctx.case(desc, nontrivial=True)
@@ -55,7 +55,7 @@ def trace_cases(ctx, st, n_cases, jobs, src, seeds=None):
             print('case', json.dumps(desc), flush=True)
         with sweeptrace.traced(psi) as tr:
             try:
-                for _ in mps.tdvp_(psi, Hs, times=(0, 0.05 * nsteps), dt=0.05, u=1j, method=method, opts_svd={'D_total': 16, 'tol': 1e-12}, precompute=pre,
+                for _ in mps.tdvp_(psi, Hs, times=(0, 0.05 * nsteps), dt=0.05, u=1j, method=method, opts_svd={'D_total': rng.choice([4, 16]), 'tol': rng.choice([1e-12, 1e-6])}, precompute=pre,
                                    opts_expmv={'hermitian': True, 'tol': 1e-12}):
                     pass
             except (KeyError, yastn.YastnError, ValueError, IndexError) as e:
@@ -64,8 +64,14 @@ def trace_cases(ctx, st, n_cases, jobs, src, seeds=None):
         ops_real = [o for o, _, _ in tr.ops]
         jobs.append((OP_TRACE, [int(pre), N, ops_real]))
         src.append(('trace', desc, tr.ops, N, pre))
-        jobs.append((OP_PROG, [2 if method == '1site' else 3, int(pre), N]))
-        src.append(('prog', desc, ops_real, N, pre, nsteps))
+        if method == '12site':
+            dec = [int(x) for x in tr.decisions]
+            jobs.append((OP_PROG12, [int(pre), N, dec[:N], dec[N:2 * N]]))
+            src.append(('prog', dict(desc, decisions=dec), ops_real, N, pre, nsteps))
+            ctx.count('trace:12site:merged-bonds', sum(dec))
+        else:
+            jobs.append((OP_PROG, [2 if method == '1site' else 3, int(pre), N]))
+            src.append(('prog', desc, ops_real, N, pre, nsteps))
         ctx.count('trace:' + method + (':pre' if pre else ''))
 
 
